@@ -33,9 +33,9 @@ pub fn job_c03(out_dir: &str, tier: &str, seed: u64) {
     let quick = tier == "quick";
     let mut rng = Rng::new(seed ^ 0xC03);
     let mut sh = Shards::new(out_dir, "c03", 500_000);
-    let mut inputs: Vec<Vec<u8>> = gen::corpus(&mut rng, if quick { 26 } else { 70 }, if quick { 600 } else { 20000 });
-    for _ in 0..(if quick { 2500 } else { 60000 }) { let k = 2 + rng.below(6); inputs.push(tag_soup(&mut rng, k)); }
-    for _ in 0..(if quick { 800 } else { 20000 }) { inputs.push(gen::foreign_doc(&mut rng, 12)); }
+    let mut inputs: Vec<Vec<u8>> = gen::corpus(&mut rng, if quick { 26 } else { 60 }, if quick { 600 } else { 8000 });
+    for _ in 0..(if quick { 2500 } else { 25000 }) { let k = 2 + rng.below(6); inputs.push(tag_soup(&mut rng, k)); }
+    for _ in 0..(if quick { 800 } else { 8000 }) { inputs.push(gen::foreign_doc(&mut rng, 12)); }
     // unhashable / special names around every integration point (the tag scanner has to hand these tags to the lexer)
     for ip in ["<math><mi>", "<math><mo>", "<math><mtext>", "<math><annotation-xml encoding=text/html>", "<svg><foreignObject>", "<svg><title>", "<svg><desc>"] {
         for nm in ["x-y", "verylongtagname12", "annotation-xml", "b"] {
@@ -54,7 +54,7 @@ pub fn job_c03(out_dir: &str, tier: &str, seed: u64) {
     }
     // transition coverage from the specification (spec/TokCover.tla), HTML namespace only (the claimed domain for soup)
     let cover = gen::cover_inputs(quick, true);
-    let stride = if quick { 2 } else { 1 };
+    let stride = 2;
     for (i, (input, _, _)) in cover.iter().enumerate() { if i % stride == 0 { inputs.push(input.clone()); } }
     // every state of the strict-mode ambiguity guard (spec/GuardCover.tla) x every pair of tags x probes
     inputs.extend(gen::guard_cover_inputs(quick));
